@@ -126,6 +126,8 @@ func c04Values(types []*pt.Type) []c04Value {
 		c04Value{"mixed:[[] [1]]", nil, pt.A(pt.A(), pt.A(pt.N(1)))}, c04Value{"mixed:[{} {a:1}]", nil, pt.A(pt.M(), pt.M("a", pt.N(1)))},
 		c04Value{"mixed:[{a:1} {}]", nil, pt.A(pt.M("a", pt.N(1)), pt.M())}, c04Value{"mixed:{p:{} q:{a:1}}", nil, pt.M("p", pt.M(), "q", pt.M("a", pt.N(1)))},
 		c04Value{"mixed:{p:[1] q:[]}", nil, pt.M("p", pt.A(pt.N(1)), "q", pt.A())}, c04Value{"mixed:[[] [[1]]]", nil, pt.A(pt.A(), pt.A(pt.A(pt.N(1))))},
+		c04Value{"mixed:[[[]] [1]]", nil, pt.A(pt.A(pt.A()), pt.A(pt.N(1)))}, c04Value{"mixed:{x:[[]] y:[\"a\"]}", nil, pt.M("x", pt.A(pt.A()), "y", pt.A(pt.S("a")))},
+		c04Value{"mixed:[{a:[]} {b:1}]", nil, pt.A(pt.M("a", pt.A()), pt.M("b", pt.N(1)))}, c04Value{"mixed:[[1] [[]]]", nil, pt.A(pt.A(pt.N(1)), pt.A(pt.A()))},
 		c04Value{"mixed:[[{}] [{a:1}]]", nil, pt.A(pt.A(pt.M()), pt.A(pt.M("a", pt.N(1))))},
 		c04Value{"litvar-basic:[n]", []pt.Stmt{n}, pt.A(pt.V("n"))}, c04Value{"litvar-basic:{k:n}", []pt.Stmt{n}, pt.M("k", pt.V("n"))},
 		c04Value{"litvar-basic:[[n]]", []pt.Stmt{n}, pt.A(pt.A(pt.V("n")))},
